@@ -23,8 +23,86 @@ func init() {
 	}})
 }
 
+// composite kinds are discovered from their exported constructors; field roles are defined by the constructor's
+// parameter positions (role "a" of join = the field holding Join's first parameter, ...), never by field names
+var c04Kinds = map[string]struct {
+	ctor  string
+	roles []string
+}{
+	"join": {"Join", []string{"a", "b"}}, "fmap": {"Getter", []string{"lens", "f"}}, "cmap": {"Setter", []string{"lens", "f"}},
+	"codec": {"BiMap", []string{"lens", "fmap", "cmap"}}, "iso": {"Iso", []string{"sa", "ta"}}, "lensM": {"NewLensM", []string{"key"}},
+	"morphism": {"Morphism", nil},
+}
+
+type c04Kind struct {
+	nt    *types.Named
+	field map[string]string // role -> actual field name
+}
+
+var c04Found map[string]*c04Kind
+
+func c04Discover(c *core.Ctx) {
+	c04Found = map[string]*c04Kind{}
+	for kind, spec := range c04Kinds {
+		fn := c.W.Func("optics", spec.ctor)
+		if fn == nil {
+			continue
+		}
+		k := &c04Kind{field: map[string]string{}}
+		// the concrete type converted to the interface result
+		for _, b := range fn.Blocks {
+			for _, in := range b.Instrs {
+				if mi, ok := in.(*ssa.MakeInterface); ok {
+					t := mi.X.Type()
+					if pt, isP := t.(*types.Pointer); isP {
+						t = pt.Elem()
+					}
+					if nt, isN := t.(*types.Named); isN {
+						k.nt = nt.Origin()
+					}
+				}
+			}
+		}
+		if k.nt == nil {
+			continue
+		}
+		if len(spec.roles) > 0 {
+			an := c.Analyze(fn)
+			ps := an.AllPaths()
+			if len(an.Problems) > 0 || len(ps) != 1 || len(ps[0].Results) != 1 {
+				continue
+			}
+			r := ps[0].Results[0]
+			if r.Op == "alloc" {
+				r = ps[0].End.MemAt(r)
+			}
+			for i, role := range spec.roles {
+				for _, kv := range ir.LitFields(r) {
+					if paramOf(kv.Args[0], fn, i) {
+						k.field[role] = kv.Aux
+					}
+				}
+			}
+		}
+		c04Found[kind] = k
+	}
+}
+
+// rf: the actual field name playing `role` in composite `kind` ("?<role>" when it could not be discovered).
+func rf(kind, role string) string {
+	if k := c04Found[kind]; k != nil {
+		if f, ok := k.field[role]; ok {
+			return f
+		}
+	}
+	return "?" + role
+}
+
 func c04Method(c *core.Ctx, typ, m string) (*ssa.Function, *ir.Path, string) {
-	fn := c.W.Method("optics", typ, m)
+	var fn *ssa.Function
+	if k := c04Found[typ]; k != nil {
+		fn = iterMethod(c, k.nt, m)
+	}
 	name := "optics." + typ + "." + m
 	p := singlePath(c, "equation", name, fn)
 	return fn, p, name
@@ -49,12 +127,13 @@ func runC04(c *core.Ctx) {
 	c.Doc("bimap-auto", 4, "BiMapS/B/I/F = BiMap(ForProduct1[S,A](attr...), conversion, conversion)")
 	c.Doc("witness", 8, "in-memory variants swapping positions are rejected by the type checker")
 
+	c04Discover(c)
 	// ---- join
 	if fn, p, name := c04Method(c, "join", "Put"); p != nil {
 		cs := calls(p)
-		ok := len(cs) == 3 && isInvokeOn(cs[0], fn, "a", "Get") && paramOf(cs[0].A[1], fn, 1) &&
-			isInvokeOn(cs[1], fn, "b", "Put") && cs[1].A[1].Op == "alloc" && paramOf(cs[1].A[2], fn, 2) &&
-			isInvokeOn(cs[2], fn, "a", "Put") && paramOf(cs[2].A[1], fn, 1) && paramOf(p.Results[0], fn, 1)
+		ok := len(cs) == 3 && isInvokeOn(cs[0], fn, rf("join", "a"), "Get") && paramOf(cs[0].A[1], fn, 1) &&
+			isInvokeOn(cs[1], fn, rf("join", "b"), "Put") && cs[1].A[1].Op == "alloc" && paramOf(cs[1].A[2], fn, 2) &&
+			isInvokeOn(cs[2], fn, rf("join", "a"), "Put") && paramOf(cs[2].A[1], fn, 1) && paramOf(p.Results[0], fn, 1)
 		why := "expected: va := a.Get(s); b.Put(&va, b); a.Put(s, va); return s"
 		if ok {
 			// the copy holds a.Get(s) before the inner put, and what is put back is the copy after it
@@ -75,7 +154,7 @@ func runC04(c *core.Ctx) {
 	}
 	if fn, p, name := c04Method(c, "join", "Get"); p != nil {
 		cs := calls(p)
-		ok := len(cs) == 2 && isInvokeOn(cs[0], fn, "a", "Get") && paramOf(cs[0].A[1], fn, 1) && isInvokeOn(cs[1], fn, "b", "Get") && cs[1].A[1].Op == "alloc" && ir.Same(p.Results[0], cs[1].R)
+		ok := len(cs) == 2 && isInvokeOn(cs[0], fn, rf("join", "a"), "Get") && paramOf(cs[0].A[1], fn, 1) && isInvokeOn(cs[1], fn, rf("join", "b"), "Get") && cs[1].A[1].Op == "alloc" && ir.Same(p.Results[0], cs[1].R)
 		if ok {
 			ok = false
 			for _, st := range p.Events(ir.KStore) {
@@ -92,12 +171,12 @@ func runC04(c *core.Ctx) {
 	}
 	if fn, p, name := c04Method(c, "fmap", "Get"); p != nil {
 		cs := calls(p)
-		ok := len(cs) == 2 && isInvokeOn(cs[0], fn, "lens", "Get") && paramOf(cs[0].A[1], fn, 1) && isCallOfField(cs[1], fn, "f") && ir.Same(cs[1].A[0], cs[0].R) && ir.Same(p.Results[0], cs[1].R)
+		ok := len(cs) == 2 && isInvokeOn(cs[0], fn, rf("fmap", "lens"), "Get") && paramOf(cs[0].A[1], fn, 1) && isCallOfField(cs[1], fn, rf("fmap", "f")) && ir.Same(cs[1].A[0], cs[0].R) && ir.Same(p.Results[0], cs[1].R)
 		c.Check(ok, "equation", name, fn.Pos(), "f(lens.Get(s))", "expected f(lens.Get(s)):\n%s", p)
 	}
 	if fn, p, name := c04Method(c, "cmap", "Put"); p != nil {
 		cs := calls(p)
-		ok := len(cs) == 2 && isCallOfField(cs[0], fn, "f") && paramOf(cs[0].A[0], fn, 2) && isInvokeOn(cs[1], fn, "lens", "Put") && paramOf(cs[1].A[1], fn, 1) && ir.Same(cs[1].A[2], cs[0].R) && ir.Same(p.Results[0], cs[1].R)
+		ok := len(cs) == 2 && isCallOfField(cs[0], fn, rf("cmap", "f")) && paramOf(cs[0].A[0], fn, 2) && isInvokeOn(cs[1], fn, rf("cmap", "lens"), "Put") && paramOf(cs[1].A[1], fn, 1) && ir.Same(cs[1].A[2], cs[0].R) && ir.Same(p.Results[0], cs[1].R)
 		c.Check(ok && len(nonLocalStores(p)) == 0, "equation", name, fn.Pos(), "lens.Put(s, f(b))", "a Setter must write exactly the converted value: expected lens.Put(s, f(b)):\n%s", p)
 	}
 	if fn, p, name := c04Method(c, "cmap", "Get"); p != nil {
@@ -105,24 +184,24 @@ func runC04(c *core.Ctx) {
 	}
 	if fn, p, name := c04Method(c, "codec", "Put"); p != nil {
 		cs := calls(p)
-		ok := len(cs) == 2 && isCallOfField(cs[0], fn, "cmap") && paramOf(cs[0].A[0], fn, 2) && isInvokeOn(cs[1], fn, "lens", "Put") && paramOf(cs[1].A[1], fn, 1) && ir.Same(cs[1].A[2], cs[0].R) && ir.Same(p.Results[0], cs[1].R)
+		ok := len(cs) == 2 && isCallOfField(cs[0], fn, rf("codec", "cmap")) && paramOf(cs[0].A[0], fn, 2) && isInvokeOn(cs[1], fn, rf("codec", "lens"), "Put") && paramOf(cs[1].A[1], fn, 1) && ir.Same(cs[1].A[2], cs[0].R) && ir.Same(p.Results[0], cs[1].R)
 		c.Check(ok && len(nonLocalStores(p)) == 0, "equation", name, fn.Pos(), "lens.Put(s, cmap(b))", "expected lens.Put(s, cmap(b)):\n%s", p)
 	}
 	if fn, p, name := c04Method(c, "codec", "Get"); p != nil {
 		cs := calls(p)
-		ok := len(cs) == 2 && isInvokeOn(cs[0], fn, "lens", "Get") && paramOf(cs[0].A[1], fn, 1) && isCallOfField(cs[1], fn, "fmap") && ir.Same(cs[1].A[0], cs[0].R) && ir.Same(p.Results[0], cs[1].R)
+		ok := len(cs) == 2 && isInvokeOn(cs[0], fn, rf("codec", "lens"), "Get") && paramOf(cs[0].A[1], fn, 1) && isCallOfField(cs[1], fn, rf("codec", "fmap")) && ir.Same(cs[1].A[0], cs[0].R) && ir.Same(p.Results[0], cs[1].R)
 		c.Check(ok, "equation", name, fn.Pos(), "fmap(lens.Get(s))", "expected fmap(lens.Get(s)):\n%s", p)
 	}
 	// ---- lensM
 	if fn, p, name := c04Method(c, "lensM", "Put"); p != nil {
 		st := nonLocalStores(p)
-		key := &ir.Term{Op: "load", Aux: "0", Args: []*ir.Term{{Op: "faddr", Aux: "key", Args: []*ir.Term{{Op: "param", Aux: fn.Params[0].Name()}}}}}
+		key := &ir.Term{Op: "load", Aux: "0", Args: []*ir.Term{{Op: "faddr", Aux: rf("lensM", "key"), Args: []*ir.Term{{Op: "param", Aux: fn.Params[0].Name()}}}}}
 		ok := len(st) == 1 && st[0].Kind == ir.KMapUpdate && st[0].A[0].Op == "load" && paramOf(st[0].A[0].Args[0], fn, 1) && ir.Same(st[0].A[1], key) && paramOf(st[0].A[2], fn, 2) && paramOf(p.Results[0], fn, 1) && len(calls(p)) == 0
 		c.Check(ok, "equation", name, fn.Pos(), "(*s)[lens.key] = a; return s", "a map lens must touch only its key: expected exactly one update of (*s)[lens.key] with a:\n%s", p)
 	}
 	if fn, p, name := c04Method(c, "lensM", "Get"); p != nil {
 		r := p.Results[0]
-		key := &ir.Term{Op: "load", Aux: "0", Args: []*ir.Term{{Op: "faddr", Aux: "key", Args: []*ir.Term{{Op: "param", Aux: fn.Params[0].Name()}}}}}
+		key := &ir.Term{Op: "load", Aux: "0", Args: []*ir.Term{{Op: "faddr", Aux: rf("lensM", "key"), Args: []*ir.Term{{Op: "param", Aux: fn.Params[0].Name()}}}}}
 		ok := r.Op == "lookup" && r.Args[0].Op == "load" && paramOf(r.Args[0].Args[0], fn, 1) && ir.Same(r.Args[1], key) && len(nonLocalStores(p)) == 0 && len(calls(p)) == 0
 		c.Check(ok, "equation", name, fn.Pos(), "(*s)[lens.key]", "expected a lookup of lens.key in *s, found %s", short(r))
 	}
@@ -130,13 +209,16 @@ func runC04(c *core.Ctx) {
 	for _, x := range [][5]string{{"Forward", "sa", "ta"}, {"Inverse", "ta", "sa"}} {
 		if fn, p, name := c04Method(c, "iso", x[0]); p != nil {
 			cs := calls(p)
-			ok := len(cs) == 2 && isInvokeOn(cs[0], fn, x[1], "Get") && paramOf(cs[0].A[1], fn, 1) && isInvokeOn(cs[1], fn, x[2], "Put") && paramOf(cs[1].A[1], fn, 2) && ir.Same(cs[1].A[2], cs[0].R)
+			ok := len(cs) == 2 && isInvokeOn(cs[0], fn, rf("iso", x[1]), "Get") && paramOf(cs[0].A[1], fn, 1) && isInvokeOn(cs[1], fn, rf("iso", x[2]), "Put") && paramOf(cs[1].A[1], fn, 2) && ir.Same(cs[1].A[2], cs[0].R)
 			c.Check(ok && len(nonLocalStores(p)) == 0, "equation", name, fn.Pos(), fmt.Sprintf("%s.Put(dst, %s.Get(src))", x[2], x[1]), "expected %s.Put(second argument, %s.Get(first argument)):\n%s", x[2], x[1], p)
 		}
 	}
 	// ---- morphism
 	for _, m := range []string{"Forward", "Inverse"} {
-		fn := c.W.Method("optics", "morphism", m)
+		var fn *ssa.Function
+		if k := c04Found["morphism"]; k != nil {
+			fn = iterMethod(c, k.nt, m)
+		}
 		name := "optics.morphism." + m
 		if fn == nil {
 			c.Undecided("equation", name, 0, "anchor not found")
@@ -208,20 +290,22 @@ func runC04(c *core.Ctx) {
 		ok := r != nil && r.Op == "lit" && len(r.Args) == len(x.fields) && len(calls(p)) == 0
 		why := "result is not a literal of the composite type: " + short(r)
 		if ok {
-			// struct field declaration order must match parameter order
-			for i, f := range x.fields {
-				found := false
-				for _, kv := range r.Args {
-					if kv.Aux == f {
-						found = true
-						if !paramOf(kv.Args[0], fn, i) {
-							ok, why = false, fmt.Sprintf("field %s holds %s, expected parameter %d (%s)", f, short(kv.Args[0]), i+1, fn.Params[i].Name())
-						}
+			// a bijection: every parameter is stored in exactly one field, every field holds a parameter
+			used := map[string]bool{}
+			for i := range x.fields {
+				n := 0
+				for _, kv := range ir.LitFields(r) {
+					if paramOf(kv.Args[0], fn, i) {
+						n++
+						used[kv.Aux] = true
 					}
 				}
-				if !found {
-					ok, why = false, "field "+f+" not set"
+				if n != 1 {
+					ok, why = false, fmt.Sprintf("parameter %d (%s) is stored in %d fields of the composite, expected exactly one", i+1, fn.Params[i].Name(), n)
 				}
+			}
+			if ok && len(used) != len(x.fields) {
+				ok, why = false, "two parameters share one field"
 			}
 		}
 		c.Check(ok, "constructor", name, fn.Pos(), strings.Join(x.fields, ", ")+" := parameters in order", "%s", why)
